@@ -247,4 +247,31 @@ theorem DtcLeaf.constComp_ok (l : DtcLeaf) (h : l.ok) (b : Bool) : (l.constComp 
   Comp.ofConvPhysConst_ok _ _ _ _ _ b h.1 h.2.1 (l.convOk h (.dtc l.code) rfl) (by simp [pvalEq]) (by simp [pvalEq])
 theorem DtcLeaf.constComp_endOk (l : DtcLeaf) (b : Bool) : (l.constComp b).EndOk := Comp.ofConvPhysConst_endOk _ _ _ _ _ b
 
+/-! ### VALUE parameters with a PHYSICAL-DEFAULT-VALUE over the three kinds (`omitted`: the default is encoded — it must then be
+    the leaf's value) -/
+
+def LinLeaf.defaultComp (l : LinLeaf) (dv : Int) (omitted : Bool) : Comp :=
+  Comp.ofConvDefault l.o l.dop (.atom (.int dv)) omitted (.atom (.int l.z)) (.atom (.int l.z)) (.int l.i)
+theorem LinLeaf.defaultComp_ok (l : LinLeaf) (h : l.ok) (dv : Int) (om : Bool) (hom : om = true → l.z = dv) :
+    (l.defaultComp dv om).Ok :=
+  Comp.ofConvDefault_ok _ _ _ _ _ _ _ h.1 h.2.1 (l.convOk h) (fun e => by rw [hom e])
+theorem LinLeaf.defaultComp_endOk (l : LinLeaf) (dv : Int) (om : Bool) : (l.defaultComp dv om).EndOk :=
+  Comp.ofConvDefault_endOk _ _ _ _ _ _ _
+
+def TTLeaf.defaultComp (l : TTLeaf) (dv : List Nat) (omitted : Bool) : Comp :=
+  Comp.ofConvDefault l.o l.dop (.atom (.str dv)) omitted (.atom (.str l.text)) (.atom (.str l.text)) l.i
+theorem TTLeaf.defaultComp_ok (l : TTLeaf) (h : l.ok) (dv : List Nat) (om : Bool) (hom : om = true → l.text = dv) :
+    (l.defaultComp dv om).Ok :=
+  Comp.ofConvDefault_ok _ _ _ _ _ _ _ h.1 h.2.1 (l.convOk h) (fun e => by rw [hom e])
+theorem TTLeaf.defaultComp_endOk (l : TTLeaf) (dv : List Nat) (om : Bool) : (l.defaultComp dv om).EndOk :=
+  Comp.ofConvDefault_endOk _ _ _ _ _ _ _
+
+def DtcLeaf.defaultComp (l : DtcLeaf) (dv : PVal) (omitted : Bool) (sup : PVal) : Comp :=
+  Comp.ofConvDefault l.o l.dop dv omitted sup (.dtc l.code) (.int l.code)
+theorem DtcLeaf.defaultComp_ok (l : DtcLeaf) (h : l.ok) (dv : PVal) (om : Bool) (sup : PVal) (hs : l.supOk sup)
+    (hom : om = true → sup = dv) : (l.defaultComp dv om sup).Ok :=
+  Comp.ofConvDefault_ok _ _ _ _ _ _ _ h.1 h.2.1 (l.convOk h sup hs) hom
+theorem DtcLeaf.defaultComp_endOk (l : DtcLeaf) (dv : PVal) (om : Bool) (sup : PVal) : (l.defaultComp dv om sup).EndOk :=
+  Comp.ofConvDefault_endOk _ _ _ _ _ _ _
+
 end OdxVerif.Codec
